@@ -6,9 +6,12 @@ From EV Require Import C35.Model C35.Proofs.
 Local Open Scope N_scope.
 
 (** Reproducible: the export does not depend on the order in which the three hash maps of the
-    index are enumerated ([ms'], [ts'], [gs'] are arbitrary permutations). *)
+    index are enumerated ([ms'], [ts'], [gs'] are arbitrary permutations).  The hypotheses are
+    structural facts of any index (distinct files have distinct paths, ...), NOT "the sort keys
+    are distinct": that the keys identify the entries is derived from what the code's
+    comparators contain (regenerated into [Gen.C35_sort]); items may share names. *)
 Theorem export_reproducible : forall ms ms' ts ts' gs gs',
-  wf_modules ms -> wf_types ts -> wf_globals gs ->
+  modules_distinct ms -> types_distinct ts -> globals_distinct gs ->
   Permutation ms ms' -> Permutation ts ts' -> Permutation gs gs' ->
   export ms ts gs = export ms' ts' gs'.
 Proof. exact Proofs.export_reproducible. Qed.
@@ -49,6 +52,11 @@ Theorem modules_reproducible_iff_sorted : forall sorted,
   (forall ms ms', wf_modules ms -> Permutation ms ms' ->
      export_modules_f sorted false ms = export_modules_f sorted false ms') <-> sorted = true.
 Proof. exact Proofs.modules_reproducible_iff_sorted. Qed.
+
+Theorem modules_reproducible_iff_key_has_path : forall with_path,
+  (forall ms ms', modules_distinct ms -> Permutation ms ms' ->
+     export_modules_k with_path true false ms = export_modules_k with_path true false ms') <-> with_path = true.
+Proof. exact Proofs.modules_reproducible_iff_key_has_path. Qed.
 
 Theorem modules_complete_iff_not_skipped : forall skip,
   (forall ms m, NoDup (map mi_file ms) -> In m ms -> mi_main m = true ->
